@@ -236,7 +236,8 @@ class Orbital(object):
             lat = np.arctan2(pos_z + c * e2 * np.sin(lat2), r)
             if np.all(abs(lat - lat2) < 1e-10):
                 break
-        alt = r / np.cos(lat) - c
+        # r / cos(lat) - c is 0/0 on the polar axis and ill-conditioned near it; this equal form is not
+        alt = r * np.cos(lat) + pos_z * np.sin(lat) - np.sqrt(1 - e2 * np.sin(lat) * np.sin(lat))
         alt *= A
         return np.rad2deg(lon), np.rad2deg(lat), alt
 
